@@ -50,7 +50,9 @@ def expected_module(dm, loaded_version, in_synth=False):
     m = c03.norm_decoded_module(dm)
     m = dict(m)
     if ts is not None:
-        m["flags"] = (m["flags"] or 0) | ts.default_flags                       # N5
+        if m["type"] != "Output":
+            m["flags"] = (m["flags"] or 0) | ts.default_flags                   # N5
+        # (module 0 is created by the project itself, not from its type string: its flags are the stored word)
         amap = c03.attr_names().get(m["type"], {})
         ctl = [list(x) for x in m["controllers"] if not str(x[0]).startswith("#")]
         have = len(ctl)
@@ -221,7 +223,17 @@ def gen_file(case):
         mods[t]["in_links"].append(f)
         mods[t]["in_link_slots"].append(sum(1 for mm in mods if mm and f in mm["in_links"]) - 1)
     pats = [absdev.make_pattern()] if case.get("pattern") else []
+    if case.get("cell_module") is not None:
+        for pt in pats:
+            pt["cells"][1][0] = [33, 64, case["cell_module"], 0x0203, 0x0405]
     p = absdev.make_project(name="gen", modules=mods, patterns=pats)
+    if "versions" in case:
+        p["sunvox_version"], p["based_on_version"] = case["versions"]
+    if case.get("module_flags") is not None:
+        # the stored flags word of each module slot, as a foreign writer may have left it
+        for m, w in zip(mods, case["module_flags"]):
+            if m is not None and w is not None:
+                m["flags"] = w
     return codec.encode(p, case.get("layout"))
 
 
@@ -468,6 +480,19 @@ def gen_cases(ctx):
         for layout in (None, {"slot_chunk": "always"}, {"slot_chunk": "never"}, {"terminate_links": True},
                        {"slot_chunk": "always", "terminate_links": True}):
             cases.append({"g": "project", "mods": mods, "links": links, "layout": layout, "pattern": True})
+    # the file's own version (VERS) and the version the song was started in (BVER) on either side of 1.9.5.0, with note
+    # cells naming modules below and above 255 (only VERS decides how wide the module column is)
+    V = {"old": [1, 9, 4, 2], "edge": [1, 9, 5, 0], "new": [2, 1, 2, 1]}
+    for vers in V.values():
+        for bver in list(V.values()) + [None]:
+            for cm in (0x0023, 0x0123, 0xFF00):
+                cases.append({"g": "project", "mods": [["Amplifier", []]], "pattern": True, "versions": [vers, bver],
+                              "cell_module": cm})
+    # module flag words a foreign writer may have left: the "output" bit on an ordinary module, module 0 without it, all bits
+    for out_w in (None, 0x41, 0x0, 0xC3):
+        for mod_w in (0x53, 0x02, 0x51 | 0x4000, 0xFFFFFFFF, 0):
+            cases.append({"g": "project", "mods": [["Amplifier", []], ["Generator", []]], "links": [[1, 0], [2, 1]],
+                          "module_flags": [out_w, mod_w, None]})
     if ctx.thorough:
         tk = list(tys.values())
         for a in tk:
